@@ -48,6 +48,7 @@ pub fn execute(script: &Script, keep_trace: bool) -> Outcome {
             6 => deque_run::run_deque::<6>(script, keep_trace),
             8 => deque_run::run_deque::<8>(script, keep_trace),
             11 => deque_run::run_deque::<11>(script, keep_trace),
+            40 => deque_run::run_deque::<40>(script, keep_trace),
             n => harness_fail(format!("capacity {n} is not compiled for the deque scenario")),
         },
         Scenario::Io => io_scn::run(script, keep_trace),
@@ -241,7 +242,8 @@ pub fn generate(prop: &str, seed: u64, run: u64) -> Option<Script> {
     match prop {
         "C14" | "C16" => Some(io_scn::gen_io(seed, prop, run)),
         "C19" => Some(zst_scn::gen_zst(seed, run)),
-        "C04io" | "C17io" | "C18io" => Some(io_scn::gen_io(seed, prop, run)),
+        "C04io" | "C13io" | "C17io" | "C18io" => Some(io_scn::gen_io(seed, prop, run)),
+        "C10zst" => Some(zst_scn::gen_zst_for(seed, run, true)),
         "C17zst" | "C18zst" => Some(zst_scn::gen_zst(seed, run)),
         _ => gen::profile(prop).map(|p| gen::gen_deque(seed, &p, run)),
     }
